@@ -402,12 +402,31 @@ pub fn test_merged(c: &MergedCase, ctx: &mut CaseCtx) -> Result<(), String> {
     let q = chars(&c.query);
     let any_contains = kids.iter().any(|k| k.contains_word(&q));
     let any_exact = kids.iter().any(|k| k.contains_exact_word(&q));
-    // union: an entry valid in every dialect takes precedence over a dialect-restricted one
-    let first_meta = kids
-        .iter()
-        .filter_map(|k| k.get_word_metadata(&q).cloned())
-        .find(|m| m.dialect.is_none())
-        .or_else(|| kids.iter().find_map(|k| k.get_word_metadata(&q).cloned()));
+    // union: the first child that knows the letters answers, unless its entry is restricted to a
+    // dialect and a later child lists this very spelling (or its lower-case form) without restriction
+    let lower_q: Vec<char> = q.iter().flat_map(|c| c.to_lowercase()).collect();
+    let first_meta = {
+        let mut found: Option<WordMetadata> = None;
+        for k in &kids {
+            let Some(m) = k.get_word_metadata(&q).cloned() else { continue };
+            match &found {
+                None => {
+                    let free = m.dialect.is_none();
+                    found = Some(m);
+                    if free {
+                        break;
+                    }
+                }
+                Some(_) => {
+                    if m.dialect.is_none() && (k.contains_exact_word(&q) || k.contains_exact_word(&lower_q)) {
+                        found = Some(m);
+                        break;
+                    }
+                }
+            }
+        }
+        found
+    };
     let restricted_and_free = kids.iter().filter_map(|k| k.get_word_metadata(&q)).any(|m| m.dialect.is_some())
         && kids.iter().filter_map(|k| k.get_word_metadata(&q)).any(|m| m.dialect.is_none());
     ctx.class_if(restricted_and_free, "dialect_restricted_in_one_child_free_in_another");
